@@ -48,10 +48,10 @@ func TestC05(t *testing.T) {
 	r := kit.New(t, "C05")
 	defer r.Finish()
 	r.SetRule("inputs: (a) every sequence of up to L lexemes over an 18-lexeme alphabet (" + strings.Join(c05Alphabet, " ") + "), plus sequences up to L+1 whose length-L prefix is a viable prefix of the grammar, and a second alphabet with string tokens spelling keywords; " +
-		"(b) trees from the G3 generator rendered three ways (single spaces, minimal separators, random ignored text with comments); (c) single-lexeme mutants (delete, duplicate, swap, substitute) of rendered trees; (d) a catalogue of near misses. " +
+		"(b) trees from the G3 generator rendered three ways (single spaces, minimal separators, random ignored text with comments); (c) single-lexeme mutants (delete, duplicate, swap, substitute) of rendered trees; (d) a catalogue of near misses; (e) wide and deep members of the grammar (18 kinds x 35 sizes from 1 to 4097 straddling powers of two and round decimal numbers); before every parse one earlier, unrelated call with a token limit is made. " +
 		"oracle: accepted <=> derivable per the reference recogniser, and on acceptance the projected tree equals the reference tree. non-trivial = accepted by the grammar, or rejected with a viable longest proper prefix / a lexable multi-token input; distinct by text")
 	r.Assume("reference lexer + recursive-descent recogniser in harness/ref (self-tested against parser/query_test.yml) encode the October 2021 executable grammar plus the documented fragment-variable extension")
-	for _, c := range []string{"enum", "enumB", "near", "tree", "mutant"} {
+	for _, c := range []string{"enum", "enumB", "near", "wide", "tree", "mutant"} {
 		kit.RegisterReplayer("C05", c, func(raw json.RawMessage) string { return parseReplay("C05", false, raw) })
 	}
 	if r.ReplayIfRequested() {
@@ -71,6 +71,31 @@ func TestC05(t *testing.T) {
 			r.Violation("near", inputCase{in}, "%s", v)
 		}
 		r.End()
+	}
+
+	for _, kind := range gen.WideQueryKinds {
+		for _, n := range gen.WideSizes {
+			if strings.HasPrefix(kind, "d-") && n > 1100 {
+				continue
+			}
+			in := gen.WideQuery(kind, n)
+			r.Begin("wide", func() interface{} { return inputCase{in} })
+			v, info := c05Eval(r, in)
+			r.Case(true, sprintf("wide:%s:%d", kind, n))
+			r.Class("wide:" + kind)
+			if !info.Accepted {
+				r.End()
+				r.HarnessErrorf("wide family member %s/%d is not derivable for the reference", kind, n)
+				return
+			}
+			if v != "" {
+				r.Violation("wide", inputCase{in}, "%s", v)
+			}
+			r.End()
+		}
+	}
+	if r.Violations() > 0 {
+		return
 	}
 
 	full := kit.Pick(5, 6)
